@@ -49,6 +49,12 @@ class staterror_builder:
             else [0.0] * self.config.channel_nbins[channel]
         )
         moddata = self.collect(thismod, nom)
+        if len(nom) != len(moddata['uncrt']):
+            raise InvalidModifier(
+                f"The '{sample}' sample staterror modifier '{thismod['name']}' in channel '{channel}' has data shape inconsistent with the sample.\n"
+                + f"{sample} has 'data' of length {len(nom)} but {thismod['name']}"
+                + f" has 'data' of length {len(moddata['uncrt'])}."
+            )
         self.builder_data[key][sample]['data']['mask'].append(moddata['mask'])
         self.builder_data[key][sample]['data']['uncrt'].append(moddata['uncrt'])
         self.builder_data[key][sample]['data']['nom_data'].append(moddata['nom_data'])
@@ -118,8 +124,10 @@ class staterror_builder:
                 if mask_this_sample.any():
                     if modname not in masks:
                         masks[modname] = mask_this_sample
-                    else:
-                        assert (mask_this_sample == masks[modname]).all()
+                    elif not (mask_this_sample == masks[modname]).all():
+                        raise InvalidModifier(
+                            f"The staterror modifier '{parname}' is declared by samples in different sets of channels."
+                        )
 
             # extract sigmas using this modifiers mask
             sigmas = relerrs[masks[modname]]
